@@ -28,7 +28,7 @@ CONFIG = dict(
                    'provider, SortFailure iff a cyclic requirement, otherwise an order with every item strictly after all its providers, a permutation), '
                    'C10_deploy_closure + C10_deploy_total (DeployItem terminates and adds exactly the least set closed under enabled providers/namesakes of requirements). '
                    'The chained (two-provider) case is decided per run by the proved-sound validator: partial.',
-        level_note='Partial: no general theorem for the chaining block; C10_chained_{order,lost_item,panic}_refuted prove that the full statement is '
+        level_note='Partial: no general theorem for the chaining block; C10_chained_norequire_{order,lost_item,panic}_refuted and C10_chained_shared_panic_refuted prove that the full statement is '
                    'false of the current code in two input regions decided by the extracted region_of (tags [chained:no-provider-requires-entity], '
                    '[chained:item-provides-two-ambiguous-entities]: known findings C10-K1/K2); every other region, all leaf subsets and all one-provider sets are clean. Modelled, not verified: the Go code (tie = replay); '
                    'fuel of BreadthSort/Toposort in the chained case is not proved sufficient (an out-of-fuel model outcome is reported as a mismatch; the deploy fuel is: C10_deploy_total).',
